@@ -195,14 +195,22 @@ impl MWorld {
 
     /// Checks a message emitted by node i: no mention of a member dead for more than grace/2.
     fn check_emitted(&mut self, i: usize, meaning: &Meaning) -> Option<V> {
-        if !self.has("C12") {
+        if !self.has("C12") && !self.has("C07") {
             return None;
         }
+        let c07_only = !self.has("C12");
         for (m, since) in &self.dead_since[i] {
             if self.now - since > GRACE_MS / 2 {
                 let in_digest = meaning.digest().iter().any(|e| &e.id == m);
                 let in_delta = meaning.members().iter().any(|d| &d.id == m);
                 self.tally.inc("messages_checked_while_a_member_is_quarantined");
+                if c07_only {
+                    // C07's clause is about deltas only
+                    if in_delta {
+                        return Some(("C07", format!("node {} includes {} in the delta of a {} although it is scheduled for deletion (dead for {} ms > grace/2)", NAMES[i], m.node_id, meaning.kind(), self.now - since), "scheduled-member-in-delta".into()));
+                    }
+                    continue;
+                }
                 if in_digest || in_delta {
                     return Some((
                         "C12",
@@ -749,6 +757,9 @@ pub fn run(property: &'static str, tier: Tier, started: Instant) -> Vec<Part> {
     };
     if tier == Tier::Quick && property == "C13" {
         plan = vec![(Root::Crash, false, depth), (Root::Crash, true, depth), (Root::Partition, true, depth), (Root::CrashRemovedAtA, true, depth2 - 1), (Root::StarBLiveXDead, false, depth2), (Root::StarBLiveXDead, true, depth2 - 1), (Root::StarXResetAtA, false, depth2 - 1)];
+    }
+    if property == "C07" {
+        plan = vec![(Root::Crash, false, tier.pick(4, 6)), (Root::CrashQuarantined, false, tier.pick(3, 5)), (Root::PartitionRemovedAtA, false, tier.pick(3, 4))];
     }
     if tier == Tier::Quick && property == "C01" {
         plan = vec![(Root::Crash, false, 4), (Root::CrashQuarantined, false, 4), (Root::CrashRemovedAtAKeepingB, false, 3), (Root::PartitionRemovedAtA, false, 3)];
